@@ -45,6 +45,9 @@ MathBridge(f, a) ==
               IF \E i \in 1..Len(a) : ds[i].t # "dec" THEN Open
               ELSE LET r == LibMath!MathCall(f, ds) IN
                    CASE r.t = "dec"    -> DecToRat(r)
+                     \* "near": the real value, which the double result is within rounding of - as a short rational it is the
+                     \* value an observed double is read as (harness/xl.to_abs) and compared with (agreement to 1e-9)
+                     [] r.t = "near"   -> DecToRat([r EXCEPT !.t = "dec"])
                      [] r.t = "bool"   -> r
                      [] r.t = "anyerr" -> r
                      [] OTHER          -> Open
